@@ -84,9 +84,20 @@ class StrV(SOpaque):
         return wrap({ast.Lt: x < y, ast.LtE: x <= y, ast.Gt: x > y, ast.GtE: x >= y}[type(op)])
 
 
+fs_f = z3.Function("free_symbol", Expr, Sym, z3.BoolSort())  # s in e.free_symbols
+
+
 class ExprV(SOpaque):
     def __init__(self, z):
         super().__init__(z, "Expr")
+
+    def pvc_getattr(self, I, attr):
+        if attr == "free_symbols":
+            ez = self.z
+            n = I.path.fresh_int("n_free_symbols")
+            I.path.assume(n >= 0)
+            return KeySetV(lambda x: fs_f(ez, x), n, Sym)
+        return NotImplemented
 
     def pvc_subst(self, pairs):
         return ExprV(z3.substitute(self.z, *pairs))
@@ -211,13 +222,52 @@ class KeysView(SV):
         return self.d.pvc_iter(I)
 
     def pvc_set(self, I):
-        return OpaqueSet(I, f"set(keys({self.d.tag}))")
+        return KeySetV(lambda x: self.d.has(x), self.d.n, self.d.key_sort)
 
     def pvc_len(self, I):
         return SInt(self.d.n)
 
     def pvc_contains(self, I, k):
         return self.d.pvc_contains(I, k)
+
+
+class OpaqueMsg(SV):
+    """A value that only feeds error-message text (derived from message-only sets): every operation yields another
+    OpaqueMsg; it can never decide a branch (truth is unsupported) - so it cannot influence verified behaviour."""
+
+    pvc_type = "list"
+
+    def pvc_getattr(self, I, name):
+        return OpaqueMsg()
+
+    def pvc_call(self, I, args, kwargs):
+        return OpaqueMsg()
+
+    def pvc_getitem(self, I, idx):
+        return OpaqueMsg()
+
+    def pvc_binop(self, I, op, other, swapped):
+        return OpaqueMsg()
+
+    def pvc_sorted(self, I, key, rev):
+        return OpaqueMsg()
+
+    def pvc_list(self, I):
+        return OpaqueMsg()
+
+    def pvc_str(self, I):
+        return OpaqueMsg()
+
+    def pvc_len(self, I):
+        n = I.path.fresh_int("opaque_len")
+        I.path.assume(n >= 0)
+        return SInt(n)
+
+    def pvc_truth(self, I):
+        raise Unsupported("message-only value used as a condition")
+
+    def pvc_subst(self, pairs):
+        return self
 
 
 class OpaqueSet(SV):
@@ -239,6 +289,18 @@ class OpaqueSet(SV):
 
     def pvc_truth(self, I):
         return self.n > 0
+
+    def pvc_eq(self, I, other):
+        raise Unsupported("comparison of a message-only set")
+
+    def pvc_contains(self, I, x):
+        raise Unsupported("membership in a message-only set")
+
+    def pvc_iter(self, I):
+        return OpaqueMsg()
+
+    def pvc_list(self, I):
+        return OpaqueMsg()
 
 
 def real_wrap(z):
@@ -275,6 +337,7 @@ card_f = z3.Function("card", SymSet, z3.IntSort())
 srt_f = z3.Function("srt", SymSet, z3.IntSort(), Sym)  # enumeration sorted by name
 spos_f = z3.Function("srt_pos", SymSet, Sym, z3.IntSort())
 lst_f = z3.Function("hash_order", SymSet, z3.IntSort(), Sym)  # iteration order of the python set (ORDER TOKEN)
+lpos_f = z3.Function("hash_order_pos", SymSet, Sym, z3.IntSort())
 
 
 def symset_axioms(P, t):
@@ -287,7 +350,8 @@ def symset_axioms(P, t):
     P.facts.append(z3.ForAll([x], z3.Implies(member_f(t, x), z3.And(spos_f(t, x) >= 0, spos_f(t, x) < n, srt_f(t, spos_f(t, x)) == x)), patterns=[member_f(t, x)]))
     P.facts.append(z3.ForAll([i, j], z3.Implies(z3.And(i >= 0, i < j, j < n), ord_f(name_f(srt_f(t, i))) < ord_f(name_f(srt_f(t, j)))), patterns=[z3.MultiPattern(srt_f(t, i), srt_f(t, j))]))
     # the hash-order enumeration is a permutation of the same elements
-    P.facts.append(z3.ForAll([i], z3.Implies(z3.And(i >= 0, i < n), member_f(t, lst_f(t, i))), patterns=[lst_f(t, i)]))
+    P.facts.append(z3.ForAll([i], z3.Implies(z3.And(i >= 0, i < n), z3.And(member_f(t, lst_f(t, i)), lpos_f(t, lst_f(t, i)) == i)), patterns=[lst_f(t, i)]))
+    P.facts.append(z3.ForAll([x], z3.Implies(member_f(t, x), z3.And(lpos_f(t, x) >= 0, lpos_f(t, x) < n, lst_f(t, lpos_f(t, x)) == x)), patterns=[member_f(t, x)]))
 
 
 class SSetV(SV):
@@ -338,11 +402,7 @@ class SSetV(SV):
     def pvc_binop(self, I, op, other, swapped):
         import ast as _ast
 
-        if isinstance(op, (_ast.Sub, _ast.BitOr, _ast.BitAnd)) and self.container == "set":
-            return OpaqueSet(I, f"setop({self.term})")
-        if self.container != "set":
-            raise PyRaise("TypeError")  # list - set etc.
-        return NotImplemented
+        return set_binop(I, op, other, self, Sym) if swapped else set_binop(I, op, self, other, Sym)
 
     def pvc_eq(self, I, other):
         if isinstance(other, SSetV):
@@ -353,6 +413,27 @@ class SSetV(SV):
             x = z3.Const(I.path.names.fresh("ex"), Sym)
             if self.container == "set":
                 return wrap(z3.ForAll([x], member_f(self.term, x) == member_f(other.term, x)))
+        if isinstance(other, KeySetV):
+            if self.container != "set":
+                return False
+            return other.pvc_eq(I, self)
+        return NotImplemented
+
+    def pvc_getattr(self, I, name):
+        if name == "isdisjoint" and self.container == "set":
+
+            def f(I, args, kw):
+                oh = set_membership(args[0])
+                if oh is None:
+                    raise Unsupported("isdisjoint with an unknown set")
+                x = z3.Const(I.path.names.fresh("dx"), Sym)
+                return wrap(z3.Not(z3.Exists([x], z3.And(member_f(self.term, x), oh(x)))))
+
+            return Builtin("set.isdisjoint", f)
+        if name == "intersection":
+            import ast as _ast
+
+            return Builtin("set.intersection", lambda I, a, k: set_binop(I, _ast.BitAnd(), self, a[0], Sym))
         return NotImplemented
 
 
@@ -379,3 +460,278 @@ class OrderedView(SSeq):
 
     def pvc_set(self, I):
         return self.set.pvc_set(I)
+
+
+# ------------------------------------------------------------------------------------------------
+# dict of dicts (sensor_models: sensor name -> {reading name -> expression}; sensor_noises likewise)
+
+
+class SDict2V(SV):
+    """Symbolic dict whose values are dicts: outer keys Str, inner keys Str, inner values of one z3 sort."""
+
+    pvc_type = "dict"
+
+    def __init__(self, P, tag, val_sort, val_wrap):
+        self.tag, self.val_sort, self.val_wrap = tag, val_sort, val_wrap
+        S, Iz, B = Str, z3.IntSort(), z3.BoolSort()
+        f = lambda n, *sorts: z3.Function(P.names.fresh(f"{tag}_{n}"), *sorts)
+        self.has1, self.key1, self.pos1 = f("has", S, B), f("key", Iz, S), f("pos", S, Iz)
+        self.n = P.fresh_int(f"{tag}_len")
+        self.has2, self.get2 = f("has2", S, S, B), f("get2", S, S, val_sort)
+        self.len2, self.key2, self.pos2 = f("len2", S, Iz), f("key2", S, Iz, S), f("pos2", S, S, Iz)
+        self.skey1, self.spos1 = f("sorted_key", Iz, S), f("sorted_pos", S, Iz)
+        self.skey2, self.spos2 = f("sorted_key2", S, Iz, S), f("sorted_pos2", S, S, Iz)
+        i, j = z3.Int(P.names.fresh("d2i")), z3.Int(P.names.fresh("d2j"))
+        k, k2 = z3.Const(P.names.fresh("d2k"), S), z3.Const(P.names.fresh("d2k2"), S)
+        P.assume(self.n >= 0)
+        A = P.facts.append
+        for key, pos in ((self.key1, self.pos1), (self.skey1, self.spos1)):
+            A(z3.ForAll([i], z3.Implies(z3.And(i >= 0, i < self.n), z3.And(self.has1(key(i)), pos(key(i)) == i)), patterns=[key(i)]))
+            A(z3.ForAll([k], z3.Implies(self.has1(k), z3.And(pos(k) >= 0, pos(k) < self.n, key(pos(k)) == k)), patterns=[self.has1(k)]))
+        A(z3.ForAll([i, j], z3.Implies(z3.And(i >= 0, i < j, j < self.n), ord_f(self.skey1(i)) < ord_f(self.skey1(j))), patterns=[z3.MultiPattern(self.skey1(i), self.skey1(j))]))
+        A(z3.ForAll([k], self.len2(k) >= 0, patterns=[self.len2(k)]))
+        for key, pos in ((self.key2, self.pos2), (self.skey2, self.spos2)):
+            A(z3.ForAll([k, i], z3.Implies(z3.And(i >= 0, i < self.len2(k)), z3.And(self.has2(k, key(k, i)), pos(k, key(k, i)) == i)), patterns=[key(k, i)]))
+            A(z3.ForAll([k, k2], z3.Implies(self.has2(k, k2), z3.And(pos(k, k2) >= 0, pos(k, k2) < self.len2(k), key(k, pos(k, k2)) == k2)), patterns=[self.has2(k, k2)]))
+        A(z3.ForAll([k, i, j], z3.Implies(z3.And(i >= 0, i < j, j < self.len2(k)), ord_f(self.skey2(k, i)) < ord_f(self.skey2(k, j))), patterns=[z3.MultiPattern(self.skey2(k, i), self.skey2(k, j))]))
+
+    def inner(self, kz):
+        return InnerDictV(self, kz)
+
+    def pvc_len(self, I):
+        return SInt(self.n)
+
+    def pvc_truth(self, I):
+        return self.n > 0
+
+    def pvc_contains(self, I, k):
+        if isinstance(k, StrV):
+            return wrap(self.has1(k.z))
+        return False
+
+    def pvc_getitem(self, I, k):
+        if not isinstance(k, StrV):
+            raise Unsupported("outer dict key")
+        I.raise_if(z3.Not(self.has1(k.z)), "KeyError")
+        return self.inner(k.z)
+
+    def seq(self, what, srt=False):
+        key = self.skey1 if srt else self.key1
+        if what == "keys":
+            fn = lambda i: StrV(key(i))
+        elif what == "values":
+            fn = lambda i: self.inner(key(i))
+        else:
+            fn = lambda i: (StrV(key(i)), self.inner(key(i)))
+        s = Dict2Seq(self, what, SInt(self.n), fn, f"{what}({self.tag})")
+        return s
+
+    def pvc_iter(self, I):
+        return self.seq("keys")
+
+    def pvc_getattr(self, I, name):
+        if name in ("keys", "items", "values"):
+            return Builtin(f"dict.{name}", lambda I, a, k, name=name: self.seq(name))
+        return NotImplemented
+
+
+class Dict2Seq(SSeq):
+    def __init__(self, d, what, n, fn, desc):
+        super().__init__(n, fn, desc)
+        self.d, self.what = d, what
+        self.pvc_type = "list"
+
+    def pvc_sorted(self, I, key, rev):
+        if rev or key is not None or self.what == "values":
+            raise Unsupported("sorted(dict view) with key/reverse")
+        return self.d.seq(self.what, srt=True)
+
+    def pvc_set(self, I):
+        if self.what == "keys":
+            return KeySetV(lambda x: self.d.has1(x), self.d.n, Str)
+        raise Unsupported("set of dict items")
+
+
+class InnerDictV(SV):
+    """sensor_models[key]: the inner dict, a view on the binary functions of the parent."""
+
+    pvc_type = "dict"
+
+    def __init__(self, parent, kz):
+        self.p, self.k = parent, kz
+        self.key_sort = Str
+
+    def pvc_subst(self, pairs):
+        return InnerDictV(self.p, z3.substitute(self.k, *pairs))
+
+    def pvc_merge(self, c, other):
+        if isinstance(other, InnerDictV) and other.p is self.p:
+            return InnerDictV(self.p, z3.If(c, self.k, other.k))
+        return NotImplemented
+
+    @property
+    def n(self):
+        return self.p.len2(self.k)
+
+    def has(self, x):
+        return self.p.has2(self.k, x)
+
+    def get(self, x):
+        return self.p.get2(self.k, x)
+
+    def pvc_len(self, I):
+        return SInt(self.n)
+
+    def pvc_contains(self, I, k):
+        if isinstance(k, StrV):
+            return wrap(self.has(k.z))
+        return False
+
+    def pvc_getitem(self, I, k):
+        if not isinstance(k, StrV):
+            raise Unsupported("inner dict key")
+        I.raise_if(z3.Not(self.has(k.z)), "KeyError")
+        return self.p.val_wrap(self.get(k.z))
+
+    def seq(self, what, srt=False):
+        key = (lambda i: self.p.skey2(self.k, i)) if srt else (lambda i: self.p.key2(self.k, i))
+        if what == "keys":
+            fn = lambda i: StrV(key(i))
+        elif what == "values":
+            fn = lambda i: self.p.val_wrap(self.get(key(i)))
+        else:
+            fn = lambda i: (StrV(key(i)), self.p.val_wrap(self.get(key(i))))
+        return InnerSeq(self, what, SInt(self.n), fn, f"{what}(inner)")
+
+    def sorted_key_fn(self, P):
+        return lambda i: self.p.skey2(self.k, i)
+
+    def pvc_iter(self, I):
+        return self.seq("keys")
+
+    def pvc_getattr(self, I, name):
+        if name in ("keys", "items", "values"):
+            return Builtin(f"dict.{name}", lambda I, a, k, name=name: self.seq(name))
+        return NotImplemented
+
+
+class InnerSeq(SSeq):
+    def __init__(self, d, what, n, fn, desc):
+        super().__init__(n, fn, desc)
+        self.d, self.what = d, what
+        self.pvc_type = "list"
+
+    def pvc_sorted(self, I, key, rev):
+        if rev or key is not None or self.what == "values":
+            raise Unsupported("sorted(dict view) with key/reverse")
+        return self.d.seq(self.what, srt=True)
+
+    def pvc_set(self, I):
+        if self.what == "keys":
+            return KeySetV(lambda x: self.d.has(x), self.d.n, Str)
+        raise Unsupported("set of dict items")
+
+
+class KeySetV(SV):
+    """set(d.keys()) / set(symbols): a set given by its membership predicate (used in real comparisons)."""
+
+    pvc_type = "set"
+
+    def __init__(self, has, n, sort):
+        self.has, self.n, self.sort = has, n, sort
+
+    def pvc_len(self, I):
+        return SInt(self.n)
+
+    def pvc_set(self, I):
+        return self
+
+    def pvc_truth(self, I):
+        return self.n > 0
+
+    def pvc_subst(self, pairs):
+        h, n = self.has, self.n
+        return KeySetV(lambda x: z3.substitute(h(x), *pairs), z3.substitute(n, *pairs) if z3.is_expr(n) else n, self.sort)
+
+    def pvc_merge(self, c, other):
+        oh = set_membership(other)
+        on = getattr(other, "n", None)
+        if type(other).__name__ == "ConcreteSet" and not other.items:
+            oh, on = (lambda x: z3.BoolVal(False)), z3.IntVal(0)
+        if oh is None or on is None:
+            return NotImplemented
+        h, n = self.has, self.n
+        return KeySetV(lambda x: z3.If(c, h(x), oh(x)), z3.If(c, n, on), self.sort)
+
+    def pvc_comprehension(self, I, gen, elt_thunk):
+        return OpaqueMsg()  # elements of an abstract set are only ever rendered into messages
+
+    def pvc_list(self, I):
+        return OpaqueMsg()
+
+    def pvc_contains(self, I, x):
+        if isinstance(x, SOpaque) and x.z.sort() == self.sort:
+            return wrap(self.has(x.z))
+        return False
+
+    def pvc_eq(self, I, other):
+        oh = set_membership(other)
+        if oh is None:
+            return NotImplemented
+        if getattr(other, "pvc_type", "set") != "set":
+            return False
+        x = z3.Const(I.path.names.fresh("sx"), self.sort)
+        return wrap(z3.ForAll([x], self.has(x) == oh(x)))
+
+    def pvc_binop(self, I, op, other, swapped):
+        return set_binop(I, op, other, self, self.sort) if swapped else set_binop(I, op, self, other, self.sort)
+
+    def issubset_z(self, other):
+        oh = set_membership(other)
+        return None if oh is None else (self.has, oh)
+
+    def pvc_getattr(self, I, name):
+        if name == "issubset":
+
+            def f(I, args, kw):
+                oh = set_membership(args[0])
+                if oh is None:
+                    raise Unsupported("issubset of an unknown set")
+                x = z3.Const(I.path.names.fresh("sx"), self.sort)
+                return wrap(z3.ForAll([x], z3.Implies(self.has(x), oh(x))))
+
+            return Builtin("set.issubset", f)
+        return NotImplemented
+
+
+def set_binop(I, op, a, b, sort):
+    """Precise union / difference / intersection of sets given by membership predicates; the size of the result is a fresh
+    integer linked to emptiness:  size >= 0  and  (size > 0  <=>  exists x. x in result)."""
+    import ast as _ast
+
+    ha, hb = set_membership(a), set_membership(b)
+    if ha is None or hb is None:
+        return NotImplemented
+    if getattr(a, "pvc_type", "set") != "set" or getattr(b, "pvc_type", "set") != "set":
+        raise PyRaise("TypeError")  # e.g. list - set
+    if isinstance(op, _ast.BitOr):
+        h = lambda x: z3.Or(ha(x), hb(x))
+    elif isinstance(op, _ast.Sub):
+        h = lambda x: z3.And(ha(x), z3.Not(hb(x)))
+    elif isinstance(op, _ast.BitAnd):
+        h = lambda x: z3.And(ha(x), hb(x))
+    else:
+        return NotImplemented
+    n = I.path.fresh_int("set_size")
+    x = z3.Const(I.path.names.fresh("sx"), sort)
+    I.path.assume(n >= 0)
+    I.path.facts.append((n > 0) == z3.Exists([x], h(x)))
+    return KeySetV(h, n, sort)
+
+
+def set_membership(v):
+    if isinstance(v, KeySetV):
+        return v.has
+    if isinstance(v, SSetV):
+        return lambda x: member_f(v.term, x)
+    return None
